@@ -51,5 +51,13 @@ def specs_to_ir(specs, version='0.1b1', debug=False, route_whitelist_filter=None
         else:
             partial_asts.append(partial_ast)
 
-    return IRGenerator(partial_asts, version, debug=debug,
-                       route_whitelist_filter=route_whitelist_filter).generate_IR()
+    try:
+        return IRGenerator(partial_asts, version, debug=debug,
+                           route_whitelist_filter=route_whitelist_filter).generate_IR()
+    except RecursionError:
+        # The IR generator follows type arguments, alias and inheritance
+        # chains and example references recursively, so their depth is
+        # bounded by the interpreter's recursion limit.
+        raise InvalidSpec(
+            'The specs nest too deeply (type arguments, chains of aliases or '
+            'parent types, or references between examples).', None)
